@@ -104,6 +104,7 @@ class DocInfo(object):
         self.blocks = []            # google example blocks, in order
         self.ff_stmts = []          # statements in freeform reading (all prompts of the docstring, in order)
         self.ignored = False        # contains a freeform-skip header (DisableDoctest: ...)
+        self.exotic = False         # prose before the first google block holds \f, \v, \x1c-\x1e, \x85, U+2028/9
         self.prefix = ''
         self.quote = '"""'
         self.oneline = False
@@ -118,6 +119,8 @@ class GenModule(object):
         self.fragment = True
         self.features = set()
         self.fail = None     # injected failure: dict(callname, kind, line, stmt)
+        self.variant = 'plain'
+        self.cookie = None
         self.ignored_lines = []   # file lines of prompts under a freeform skip header: part of no doctest
 
     @property
@@ -253,6 +256,15 @@ class _Gen(object):
             nblocks = r.choice([0, 1, 1, 2, 2, 3])
             sections = ['E'] * nblocks + ['O'] * r.randint(0, 2)
             r.shuffle(sections)
+            if nblocks and r.random() < 0.15:
+                # characters at which str.splitlines() breaks a line but that are NOT line ends of the file, in the
+                # prose BEFORE the first block (inside a block / in freeform reading they shift the numbers: K-C08-c)
+                d.exotic = True
+                m.features.add('google:exotic-linebreak-in-prose')
+                ch = r.choice(['\x0c', '\x0b', '\x1c', '\x1d', '\x1e'] + ([] if m.cookie == 'latin-1' else ['\x85', '\u2028', '\u2029']))
+                m.emit(pad + 'A form feed or the like%shere, and%sthere again.' % (ch, ch))
+                if r.random() < 0.5:
+                    m.emit('')
             for s in sections:
                 if s == 'O':
                     m.emit(pad + r.choice(TAGS_OTHER))
@@ -667,7 +679,7 @@ class _Gen(object):
             m.features.add('redefinition')
             self.emit_func(0, 'module', reuse=r.choice([cn for cn, _ in m.inventory if cn.startswith('f') and '.' not in cn
                                                         and cn not in self.nested_top]))
-        elif c < 0.90 + self.o.unexecuted_defs_p:
+        elif 0.90 <= c < 0.90 + self.o.unexecuted_defs_p:
             # a branch an import does not execute: collected statically (C07), outside the C16 fragment
             m.features.add('unexecuted-defs')
             m.fragment = False
@@ -682,10 +694,15 @@ class _Gen(object):
     def run(self):
         r = self.rng
         m = self.m
-        # module docstring
+        # coding cookie (line 1), module docstring
+        m.cookie = r.choice([None, None, None, 'utf-8', 'latin-1'])
+        if m.cookie:
+            m.emit('# -*- coding: %s -*-' % m.cookie)
+            m.features.add('cookie:' + m.cookie)
+        if m.cookie != 'latin-1' and r.random() < 0.3:
+            m.emit('# non-ASCII text in a comment: caf\u00e9 \u2013 na\u00efve \u4e2d')
+            m.features.add('non-ascii')
         if r.random() < 0.6:
-            if r.random() < 0.3:
-                m.emit('# -*- coding: utf-8 -*-')
             d = self.emit_docstring(0, '__doc__')
             if d is not None:
                 m.inventory.append(('__doc__', True))
@@ -731,6 +748,15 @@ class _Gen(object):
                 m.emit('')
         if not self.guard_done and r.random() < 0.5:
             self.emit_main_guard()
+        # how the FILE is written (harness/corr/collect.py: to_bytes): byte order mark, \r\n or \r line ends, latin-1 cookie
+        if m.cookie == 'latin-1':
+            variant = 'latin1'
+        else:
+            variant = r.choice(['plain', 'plain', 'plain', 'bom', 'crlf', 'bom+crlf', 'cr', 'bom'])
+        m.variant = variant
+        if variant != 'plain':
+            m.features.add('file:' + variant)
+            m.emit('# xdv-variant: ' + variant)
         return m
 
 
